@@ -14,12 +14,14 @@ import (
 
 var families = map[string]func(*h.Run){
 	"C01": props.C01,
+	"C02": props.C02,
 	"C03": props.C03,
 	"C04": props.C04,
 	"C06": props.C06,
 	"C08": props.C08,
 	"C09": props.C09,
 	"C10": props.C10,
+	"C11": props.C11,
 	"C12": props.C12,
 	"C16": props.C16,
 	"C17": props.C17,
